@@ -145,16 +145,35 @@ func TestDenomTable(t *testing.T) {
 	}
 	seed := lib.EnvInt("VERIF_SEED", 1)
 	variants := lib.EnvInt("VERIF_VARIANTS", 2)
-	var paths [][]string
-	var pairs [][]string
-	mustRead(t, dir+"/paths.json", &paths)
-	mustRead(t, dir+"/escrow.json", &pairs)
 	tw, err := lib.NewTraceWriter(out)
 	if err != nil {
 		t.Fatal(err)
 	}
 	defer tw.Close()
 	n := 0
+	if rowsPath := lib.EnvStr("VERIF_ROWS", ""); rowsPath != "" {
+		// re-evaluation of given rows (replay of a reported case)
+		rows, err := lib.ReadNDJSON[tableRow](rowsPath)
+		if err != nil {
+			t.Fatal(err)
+		}
+		for _, r := range rows {
+			n++
+			var row tableRow
+			if r.Kind == "esc" && len(r.Inst) == 2 {
+				row = evalEscrow(n, r.Segs, r.Inst[0], r.Inst[1])
+			} else {
+				row = evalPath(n, r.Segs, r.Inst)
+			}
+			row.ID = r.ID
+			tw.Emit(row)
+		}
+		return
+	}
+	var paths [][]string
+	var pairs [][]string
+	mustRead(t, dir+"/paths.json", &paths)
+	mustRead(t, dir+"/escrow.json", &pairs)
 	for pi, segs := range paths {
 		for v := 0; v < variants; v++ {
 			inst := make([]string, len(segs))
